@@ -13,6 +13,8 @@ Line protocol of C01 (see harness/cmd/vh/c01.go):
   trim <grid>     trimRow                          -> ok <grid>
   dens <grid>     checkSheet; checkRow             -> ok <grid> | ERR | PANIC
   cycle <grid>    trimRow; (xml); checkSheet; checkRow
+  puts n {j i k v} SetCellInt / SetCellBool in order on a new worksheet (cell slot j, row slot i): the internal
+                  <sheetData> afterwards (model: SaveBook.writeCell = prepareSheetXML + fillColumns + setter)
   hbook <book>    sheet list / visibility / active tab / merged ranges / defined names of a generated workbook
                   before a real save; answer = the same after OpenReader (model: SaveBook.cycleBook)
   setint <n>      SetCellInt on A1 of a real file: raw value before, after save+open, type, displayed value
@@ -189,6 +191,18 @@ def stepCellText (k : Grid.Content) : String :=
     | [] => "E_OPEN"
   | _ => "E_OPEN"
 
+/-- `puts n { j i kind val }`: cell writes on a new worksheet, in order -/
+def applyPuts : Nat → List String → List Grid.Row → Option (List Grid.Row)
+  | 0, [], rows => some rows
+  | n + 1, j :: i :: kind :: val :: w, rows =>
+    match j.toNat?, i.toNat?, val.toInt? with
+    | some j, some i, some v =>
+      let upd : Grid.Content → Grid.Content :=
+        if kind = "b" then setBool (v != 0) else setInt v
+      applyPuts n w (writeCell rows i j upd)
+    | _, _, _ => none
+  | _, _, _ => none
+
 def step (w : List String) : String :=
   match w with
   | ["bm", h] => match decodeU h with
@@ -211,6 +225,11 @@ def step (w : List String) : String :=
     | none => "bad-op"
   | "cycle" :: g => match parseGrid g with
     | some rs => showRes (cycle rs)
+    | none => "bad-op"
+  | "puts" :: n :: g => match n.toNat? with
+    | some n => match applyPuts n g [] with
+      | some rows => "ok " ++ showGrid rows
+      | none => "bad-op"
     | none => "bad-op"
   | "hbook" :: g => stepBook g
   | ["setint", n] => match n.toInt? with
